@@ -272,7 +272,8 @@ class Shadow:
         r = rnd.random()
         if self.e and r < 0.5:
             k = rnd.randrange(len(self.e))
-            return '%s:%d' % (rnd.choice('ni'), k)
+            # lookup keys are non-empty (features have no name)
+            return '%s:%d' % ('i' if self.e[k]['K'] == 'X' or not self.e[k]['name'] else rnd.choice('ni'), k)
         if r < 0.7:
             return hx(rnd.choice(UUIDISH))
         return hx(rnd.choice(PLAIN))
